@@ -141,7 +141,7 @@ PROPS = {
     ),
     'C09': dict(
         harness='clienttrace', syn=True, args=['-prop', 'C09'], shards=dict(quick=8, thorough=16),
-        rule='directed scenarios (unsendable CONNECT / failing Session.Reset then Close, dial failure, CONNACK accepted/denied/session-present/garbage/none, SUBACK failure with and without ValidateSubs, failing DeletePacket in every ack handler, API call parked in NextID/SavePacket while the connection drops, resume with unacknowledged QoS 1/2 packets) plus random scripts: publish/subscribe/unsubscribe/disconnect/close (also from several goroutines at once), acks in and out of order, missing and spurious acks, drops (peer close / broken carrier), k-th send / session operation failing, parked API and processor, reconnects with the same session clean and unclean; futures polled and every accessor called after each step; Close/Disconnect under a watchdog; distinct = distinct step sequences',
+        rule='directed scenarios (unsendable CONNECT / failing Session.Reset then Close, dial failure, CONNACK accepted/denied/session-present/garbage/none, SUBACK failure with and without ValidateSubs, failing DeletePacket in every ack handler, API call parked in NextID/LookupPacket/SavePacket while the connection drops, resume with unacknowledged QoS 1/2 packets, id-skip: a spurious PUBREC makes an unused id busy and the allocation has to step over it, also with the lookup failing) plus, once per run (shard 0), the packet-id wrap-around id-wrap: QoS 1 publish A never acknowledged, 65535 further QoS 1 publishes each acknowledged at once, then A must still be stored, its future pending, and a reconnect must retransmit it (own monitors; the first 1500 rounds — thorough: 6000 — are also model-checked, -wrapmodel -1 checks all 590000 lines in several minutes) plus random scripts: publish/subscribe/unsubscribe/disconnect/close (also from several goroutines at once), acks in and out of order, missing and spurious acks, drops (peer close / broken carrier), k-th send / session operation failing, parked API and processor, reconnects with the same session clean and unclean; futures polled and every accessor called after each step; Close/Disconnect under a watchdog; distinct = distinct step sequences',
         assumptions=['real client.Client inside a testing/synctest bubble (go1.26) against a scripted in-memory transport.Conn, a logging / fault-injecting / parking client.Session around session.MemorySession and a scripted Callback; every visible event must be an enabled step of lean/Model/Client.lean (hidden micro-steps are searched)',
                      'exported methods are entered one at a time through a harness-level lock (Client.mutex serialises them anyway; structural fact F-lock), their micro-steps interleave freely with the processor',
                      'KeepAlive is 0 in the harness: under the exact fake clock the pinger re-arms a zero timer for ever (Window()==0 is "not due"); the pinger is part of the model and the theorems but is not exercised by the correspondence run',
